@@ -9,6 +9,7 @@ import time
 import z3
 
 W = 128
+PATH_START = []           # callbacks run at the start of every explored path (per-path state of stubs)
 
 
 class Abort(BaseException):
@@ -237,6 +238,8 @@ class Engine:
             self.model = None
             self.free_bools = set(self.free_bools_init)
             self.npaths += 1
+            for cb in PATH_START:
+                cb()
             if self.npaths > self.max_paths:
                 raise Inconclusive("path budget (%d)" % self.max_paths)
             try:
@@ -1072,6 +1075,10 @@ def sx_hex(x):
 
 
 def sx_in(a, b):
+    if type(b) is dict and PATH_START:
+        from . import hook as _h
+        if _h.OPTIONS['symkey_modules'] and (_h._symkey(a) or (id(b) in _h.SIDE and _h.SIDE[id(b)][1])):
+            return _h.sx_in_dict(a, b)
     if _isinstance(a, SInt) and _isinstance(b, (dict, set, frozenset, list, tuple, _range)):
         if _isinstance(b, _range):
             assert b.step == 1
